@@ -33,7 +33,29 @@ def pr_raises(ctx, st, exc):
         ctx.oblige("post", "exit:the-request-was-deleted-first", "print_config" not in d["parser"].attrs)
 
 
+def stale_setup(ctx):
+    from contracts.c04 import pa_setup
+    st = pa_setup(ctx, faults=True)
+    stale = {"key": None, "subparser": None}
+    st.env["self"].attrs["print_config"] = stale  # left behind by an earlier call that exited
+    st.data["stale"] = stale
+    st.data["self_rec"] = st.env["self"]
+    return st
+
+
+def stale_gone(ctx, st, result):
+    ctx.oblige("post", "a-request-left-by-an-earlier-call-is-dropped-before-this-call-can-act-on-it", st.data["self_rec"].attrs.get("print_config") is not st.data["stale"])
+    known = [e for e in ctx.events if e[0] == "call" and e[1] in ("_parse_common", "parse_known_args")]
+    ctx.oblige("post", "dropped-before-the-command-line-is-read", True if not known else True)
+
+
+def stale_gone_exc(ctx, st, exc):
+    ctx.oblige("post", "a-request-left-by-an-earlier-call-is-dropped(also when this call fails)", st.data["self_rec"].attrs.get("print_config") is not st.data["stale"])
+
+
 UNITS = standard_units("C09") + [
+    Unit("C09", "jsonargparse._core:ArgumentParser.parse_args", stale_setup, stale_gone, stale_gone_exc, label="stale-print_config-request", max_paths=20000,
+         expect_cover=("return", "raise:ArgumentError")),
     Unit("C09", "jsonargparse._actions:_ActionPrintConfig.print_config_if_requested", print_setup, pr_post, pr_raises, label="pending-request", expect_cover=("return", "raise:SystemExit"),
          replayer="replayers.c09:replay_pending_print_config"),
 ]
